@@ -1,6 +1,6 @@
 """C14 Inlining is transparent - E-TV relational: every subset of eligible callees marked inline vs none."""
 import itertools, copy
-import common, runner, families2
+import common, runner, families, families2
 from cast import *
 from families import V, C, A, B, mkprog
 
@@ -52,6 +52,12 @@ def extra_programs():
         [If(B('&&', Call('f', [V('va')]), Call('f', [V('vb')])), A(V('vc'), C(1)), A(V('vc'), C(2)))])
     add('inl/y_index', [F('f', 'u8', [], Block([ret(Index('arr', V('Y')))]))], [A(V('Y'), C(1)), A(V('va'), Call('f', [])), inc('Y'), A(V('vb'), Call('f', []))])
     add('inl/short_ret', [F('f', 'u16', [('u16', 'x')], Block([If(B('==', V('x'), C(0)), ret(C(0x1234))), ret(B('+', V('x'), C(1)))]))], [A(V('wa'), Call('f', [V('wb')])), A(V('wc'), Call('f', [V('wa')]))])
+    # a register / variable loaded with a constant and compared with a constant inside an inline body: the optimiser of the caller
+    # sees the copy (protected branches of <= and > must stay protected)
+    for rn, k, op, k2 in itertools.product(('X', 'Y', 'va'), (0, 3, 5, 255), ('<=', '>', '<', '>=', '==', '!='), (0, 3, 4)):
+        pid = 'inl/regconst/%s=%d%s%d' % (rn, k, op, k2)
+        if not families.stable_pick(pid, 100, 60): continue
+        add(pid, [F('g', None, [], Block([A(V(rn), C(k)), If(B(op, V(rn), C(k2)), A(V('vc'), C(1)), A(V('vc'), C(2)))]))], [A(V('vd'), C(0)), ExprS(Call('g', [])), inc('vd')], extra=['vc'])
     # a conditional branch of the caller that spans inlined bodies containing jumps, with the distance swept across the
     # short-branch limit: the copied lines must keep their sizes for the long-branch repair (and the call must still behave the same)
     nops = lambda n: [Raw('asm', 'NOP', 1) for _ in range(n)]
